@@ -324,11 +324,7 @@ Definition step (T : class_table) (s : mstate) (op : mop) : mstate * mresult :=
                           | Some ((r, h), n2, nx2) =>
                               let root2 := replace_node hid n2 root1 in
                               if nop_is_read o then (keep_root s oid ob root2 nx2, MR r h)
-                              else
-                                match r, skip_load with
-                                | Err _, true => (keep_root s oid ob root2 nx2, MR r h)  (* root reset: raised before the save *)
-                                | _, _ => (save_root s oid ob root2 nx2, MR r h)
-                                end
+                              else (save_root s oid ob root2 nx2, MR r h)   (* __exit__ saves, also when the body raised *)
                           end
                       end
                   end
